@@ -745,6 +745,9 @@ pub fn check(case: &Case, _tier: Tier) -> Outcome {
         ModuleSpecifier::parse(&format!("{}{}", base, path.trim_start_matches('/'))).unwrap();
       let emitted_names = declared.get(&spec).cloned().unwrap_or_default();
       for n in names {
+        if pkg.rec.maybe_retained.contains(&(path.clone(), n.clone())) {
+          continue;
+        }
         let expected = pkg.rec.retained.contains(&(path.clone(), n.clone()));
         let got = emitted_names.contains(n);
         if expected && !got {
